@@ -68,6 +68,7 @@ func runC05(c *Ctx) {
 	c.Rule("C05-R3", "display options do not flow into the verdict", 4)
 	c.Rule("C05-R4", "CountBySeverity counts every report of the unfiltered list", 4)
 	c.Rule("C05-R5", "who may write Problem.Severity / Summary.reports; report identity includes severity", 5)
+	defer c05SeverityZeroIsAValue(c, "C05-R1")
 	defer c05ReporterIO(c)
 	defer c05ReportsNotEditedInPlace(c)
 
